@@ -440,6 +440,21 @@ func (e *Engine) VerifyLemma(ax *AxiomDef) *FuncResult {
 		return res
 	}
 	o := &Obligation{Name: "lemma:" + ax.Name, Kind: "lemma", Func: "lemma " + ax.Name, Pos: fmt.Sprintf("%s:%d", ax.File, ax.Line), Src: ax.Src, Guard: "true", Goal: g}
+	if e.known != nil {
+		for _, kf := range e.known.Findings {
+			if kf.matches(o, e.curProp) {
+				w, err := ParseExpr(kf.Witness)
+				if err == nil {
+					if g, err := en.EvalBool(w); err == nil {
+						o.Excl = g
+						o.KF = kf
+					} else {
+						res.Errs = append(res.Errs, fmt.Sprintf("known finding witness %q: %v", kf.Witness, err))
+					}
+				}
+			}
+		}
+	}
 	res.Obls = []*Obligation{o}
 	// later lemmas may not be used to prove earlier ones: only axioms and lemmas declared before this one
 	axs := c.axiomTextBefore(ax)
